@@ -9,7 +9,7 @@ from common import Cmat, Cx, R, Rmat, cfl, fl, flmat, max_rel_err
 
 from common import wiring_pre_build as pre_build  # noqa: E402,F401
 
-LEAN_MODULES = ["PyomaVerif.Props.C01", "PyomaVerif.Props.WiringRun"]
+LEAN_MODULES = ["PyomaVerif.Props.C01", "PyomaVerif.Props.WiringRun", "PyomaVerif.Props.C01C11"]
 THEOREMS = [
     # call-site wiring of the class layer, regenerated from /repo on every run (translate_wiring.py)
     "PV.WiringRun.C12_run_build_hank",
@@ -27,6 +27,7 @@ THEOREMS = [
     "PV.C01.C01_chain",
     "PV.C01.freevib_hankel_factor",
     "PV.C01.pole_recovery",
+    "PV.C01C11.C01_extract",
 ]
 RULE = (
     "correspondence: ssi.SSI_fast, ssi.SSI, ssi.ac2mp and the SSI_poles table pattern vs the Lean model, the LAPACK results "
